@@ -14,7 +14,7 @@ import warnings
 
 import numpy as np
 
-from .. import cases, effects
+from .. import cases, effects, plotgen
 
 # (entry point, parameter) pairs where the path-insensitive analysis is known to over-approximate (justified in Props/C20.v)
 IMPRECISE = {('multivariate.tree.Tree.fit', 'edges')}
@@ -775,8 +775,27 @@ def _run(ctx):
         ctx.obligation(f'translate:{q}', q not in errors and q in info, 'translation', errors.get(q, ''))
     ctx.obligation('translate:call-graph-depth<=12', info['__depth__'] <= 12, 'translation', f"depth {info['__depth__']}")
     ctx.write('Gen_effects.v', txt)
+    # the scatter pipeline of copulas/visualization.py, generated from the AST and proved equal to Model.Plot ([C20_bridge_*] in Props/C20.v).
+    # A failed translation leaves the definition out of Gen_plot.v: the bridge theorem cannot be checked and C20.v fails at it (they are the
+    # last section of the file); the dynamic oracles, the verdict correspondence and the plot correspondence below run regardless.
+    try:
+        pstatus = plotgen.generate(ctx)
+    except Exception as ex:      # noqa  the generator itself must never stop the check
+        ctx.write('Gen_plot.v', '(* plotgen raised *)\n')
+        pstatus = {k: f'plotgen raised {type(ex).__name__}: {ex}' for k in plotgen.NAMES}
+    plotgen.record(ctx, pstatus)
     ctx.copy_src('Props/C20.v')
-    compiled = ctx.compile(['Gen_effects.v', 'C20.v'])
+    compiled = ctx.compile(['Gen_effects.v', 'Gen_plot.v', 'C20.v'])
+    if not compiled and not any(o['name'].startswith('Gen_plot.v:') or '_bridge_' in o['name'] for o in ctx.obligations if not o['ok']):
+        # coqc stopped at an earlier statement (an effect verdict, ...): the bridge section is self-contained, check it on its own so
+        # that a change of the scatter pipeline is reported by the layer that models it as well
+        import os
+        whole = open(os.path.join(ctx.build, 'C20.v')).read()
+        if 'BEGIN-BRIDGE' in whole:
+            ctx.write('C20_bridge.v', 'From Coq Require Import ZArith List Bool Arith Lia Permutation.\n'
+                                      'From Cop Require Import Model.Plot Spec.PlotProofs Lib.PyFrame.\nFrom CopRun Require Import Gen_plot.\n'
+                                      'Import ListNotations.\n(* ' + whole.split('BEGIN-BRIDGE', 1)[1])
+            ctx.compile(([] if os.path.exists(os.path.join(ctx.build, 'Gen_plot.vo')) else ['Gen_plot.v']) + ['C20_bridge.v'])
     verdicts = model_verdicts(ctx, info)
     mirror_ok = all(verdicts.get(q) == v for q, v in info['__pyverdict__'].items()) if verdicts else False
     ctx.obligation('extractor:python-mirror-equals-coq-analysis', mirror_ok, 'correspondence',
@@ -933,7 +952,11 @@ def _run(ctx):
     ctx.trusted += ['tools/vf/effects.py: the effect extractor and its alias table (numpy/pandas/builtin view/copy/mutator facts), validated by the '
                     'dynamic verdict comparison; calls whose arguments cannot reach a parameter are not translated',
                     'Model.Plot: hand-written transcription of copulas/visualization.py and of plotly.express.scatter grouping (one trace per label '
-                    'in order of first appearance), tied by the trace correspondence',
+                    'in order of first appearance), tied by the trace correspondence; its functions scatter_2d/3d, compare_2d/3d and generate_scatter are in '
+                    'addition proved equal, for all inputs, to definitions generated from the AST on every run (tools/vf/plotgen.py, C20_bridge_*): the '
+                    'translator (it resolves aliasing: which object an in-place operation goes to) and the denotations of coq/Lib/PyFrame.v '
+                    '(DataFrame.copy / d[c] = label / pd.concat(ignore_index=True) / .columns, px.scatter grouping by the colour column, list and None '
+                    'operations) are trusted, the equality is proved',
                     'container reach-through convention: the content of an object includes the objects it holds; objects passed as models (Tree, Edge) '
                     'are not treated as caller-owned data']
     ctx.assumptions += ['callables received as arguments (f of bisect/chandrupatla) and local closures do not write to their arguments',
